@@ -1,8 +1,9 @@
 package main
 
 import (
-	"math"
 	"fmt"
+	"math"
+	"sort"
 	"strings"
 	"sync"
 	"unicode"
@@ -434,6 +435,97 @@ func (e *Env) hostileStrings(newGroup func(*c03group) int, emit func(c03exp)) {
 			}
 		}
 	}
+	// a valid 24-word sentence respelled so that its RAW byte length is exactly L, for every L the
+	// respelling can reach (ASCII letters as full-width (+2 bytes) or mathematical bold (+3 bytes)
+	// letters, separators as U+3000 (+2)), followed by one more word, by junk glued to the last
+	// word, or by a second sentence: a validator that cuts its input at some byte length before
+	// normalising accepts one of them when L is that length
+	{
+		r := rng.New(e.Seed, "C03-exact-length")
+		langs := []int{4, 7, 2} // Italian, Spanish, English
+		if e.Thorough() {
+			langs = []int{2, 3, 4, 7, 8, 9}
+		}
+		for _, lang := range langs {
+			// a sentence of the longest words of the list: 23 drawn from the 48 words with the
+			// most ASCII letters, and the longest of the final words that make the checksum right
+			asciiLetters := func(t string) int {
+				n := 0
+				for _, x := range t {
+					if x >= 'a' && x <= 'z' {
+						n++
+					}
+				}
+				return n
+			}
+			byLen := append([]string(nil), m.List[lang]...)
+			sort.SliceStable(byLen, func(i, j int) bool { return asciiLetters(byLen[i]) > asciiLetters(byLen[j]) })
+			w := make([]string, 24)
+			for i := 0; i < 23; i++ {
+				w[i] = byLen[r.Intn(48)]
+			}
+			for _, cand := range byLen {
+				w[23] = cand
+				if _, st, _ := m.Dec(w, lang); st == ref.OK {
+					break
+				}
+			}
+			best := asciiLetters(strings.Join(w, ""))
+			plain := strings.Join(w, " ")
+			letters, seps := best, len(w)-1
+			for delta := 0; delta <= 3*letters+2*seps; delta++ {
+				y := delta / 3
+				if y > letters {
+					y = letters
+				}
+				x := -1
+				for ; y >= 0; y-- {
+					if rest := delta - 3*y; rest%2 == 0 && rest/2 <= letters-y+seps {
+						x = rest / 2
+						break
+					}
+				}
+				if x < 0 {
+					continue
+				}
+				var sb strings.Builder
+				bold, wide := y, x
+				for _, c := range plain {
+					switch {
+					case c >= 'a' && c <= 'z' && bold > 0:
+						sb.WriteRune(0x1D41A + (c - 'a'))
+						bold--
+					case c >= 'a' && c <= 'z' && wide > 0:
+						sb.WriteRune(0xFF41 + (c - 'a'))
+						wide--
+					default:
+						sb.WriteRune(c)
+					}
+				}
+				sp := sb.String()
+				if wide > 0 { // the remaining +2 steps go to the separators, from the end
+					parts := strings.Split(sp, " ")
+					sp = parts[0]
+					for i := 1; i < len(parts); i++ {
+						if len(parts)-i <= wide {
+							sp += "\u3000" + parts[i]
+						} else {
+							sp += " " + parts[i]
+						}
+					}
+				}
+				if len(sp) != len(plain)+delta {
+					continue
+				}
+				tail := m.List[lang][r.Intn(2048)]
+				emit(c03exp{s: sp + " " + tail, lang: lang, class: "exact-raw-length-then-one-more-word", group: -1})
+				emit(c03exp{s: sp + "zz" + tail, lang: lang, class: "exact-raw-length-then-glued-junk", group: -1})
+				if delta%4 == 0 {
+					emit(c03exp{s: sp + "\u3000" + plain, lang: lang, class: "exact-raw-length-then-second-sentence", group: -1})
+				}
+			}
+		}
+	}
 	// fixed oddities, every language
 	for lang := 0; lang < ref.NLang; lang++ {
 		for _, s := range []string{"", " ", "           ", strings.Repeat(" ", 23), "\x00", "\xff\xfe", strings.Repeat("a ", 12), strings.Repeat("abandon ", 12)} {
@@ -665,7 +757,7 @@ func checkC03(e *Env) {
 		"evaluations":                        stats.Ops,
 		"distinct_nontrivial":                refRejected.Len(),
 		"calls_repeated_under_concurrency":   concCalls,
-		"rule":                               "cases are strings built from reference-valid sentences: all 2048 final words for fixed prefixes (random, zero-leading, all-ones, all-zero), all 2047 substitutions at every position, transpositions, word-count changes 0..30, sentences and words of the other nine lists, valid sentences of every list under unsupported Language values (next to the declared range, aliases of supported values after truncation to 8/16/32 bits, extremes of int), case/affix/white-space damage, checksum-bit flips and seeded byte fuzz incl. invalid UTF-8; each is sent to CheckMnemonic and IsMnemonicValid; further, histories in one process (a valid sentence accepted, then the same string under other languages, in other spellings, with one word changed or appended); non-trivial = the independent reference validator (CPython NFKD, split on white space, golden lists, SHA-256) rejects the string, so acceptance would be a violation; distinct by (string, language)",
+		"rule":                               "cases are strings built from reference-valid sentences: all 2048 final words for fixed prefixes (random, zero-leading, all-ones, all-zero), all 2047 substitutions at every position, transpositions, word-count changes 0..30, sentences and words of the other nine lists, valid sentences of every list under unsupported Language values (next to the declared range, aliases of supported values after truncation to 8/16/32 bits, extremes of int), case/affix/white-space damage, a valid 24-word sentence respelled to every reachable raw byte length (full-width and mathematical-bold letters, U+3000) followed by one more word, glued junk or a second sentence, checksum-bit flips and seeded byte fuzz incl. invalid UTF-8; each is sent to CheckMnemonic and IsMnemonicValid; further, histories in one process (a valid sentence accepted, then the same string under other languages, in other spellings, with one word changed or appended); non-trivial = the independent reference validator (CPython NFKD, split on white space, golden lists, SHA-256) rejects the string, so acceptance would be a violation; distinct by (string, language)",
 		"samples":                            smp.List(),
 		"validations_by_class":               classes.Map(),
 		"accepted_by_class":                  acceptedByClass.Map(),
